@@ -347,7 +347,7 @@ class GValid:
             for _ in range(rng.randint(1, 2)):
                 rr = self._ruleref(cx) if rng.random() < 0.5 else None
                 prefix.append(rr if rr is not None else self._tok())
-            nalt = rng.choice([2, 2, 3])
+            nalt = rng.choice([2, 3, 3])
             alts = []
             for i in range(nalt):
                 last = i == nalt - 1
@@ -366,9 +366,15 @@ class GValid:
                 if rng.random() < 0.2:
                     tail.insert(rng.randint(0, len(tail)), assertion(rng.randint(1, 2)))
                     cx.features.add("assertion_in_choice")
-                if rng.random() < 0.2 and not cx.is_start:
-                    tail.append(rename(rng.choice(self.node_names)))
+                if rng.random() < 0.3 and not cx.is_start:
+                    # anywhere in the alternative: a rename (or `^`) that runs *before* the point where the attempt
+                    # fails is state the abandoned attempt must not leave behind
+                    tail.insert(rng.randint(0, len(tail)), rename(rng.choice(self.node_names)))
                     cx.features.add("rename_in_choice")
+                if cx.elide_mode == "cond" and not last and rng.random() < 0.6:
+                    tail.insert(rng.randint(0, len(tail)), elide())
+                    cx.features.add("elide_atom")
+                    cx.features.add("elide_in_choice")
                 items += tail
                 alts.append(concat(*items))
             if rng.random() < 0.2:
